@@ -241,8 +241,8 @@ func init() {
 			{Pkg: "json", Func: "HarnessC07_Json", Stall: true, Labels: []string{"c07-json", "c07-json-accepted"}, Bound: "every byte string of 0..5 bytes (thorough 0..7) through NewJsonPlusReader+ReadAll, delivered whole, byte by byte, or split once at every offset"},
 			{Pkg: "rtmp", Func: "HarnessC07_Chunks", Stall: true, Labels: []string{"c07-chunks"}, Bound: "ReadMessage until error over every byte string of 0..12 bytes (thorough 0..16), input chunk size default 128 or symbolic 1..4"},
 			{Pkg: "rtmp", Func: "HarnessC07_ChunkStep", Stall: true, Labels: []string{"c07-chunkstep", "c07-chunkstep-message"}, Bound: "one chunk (header type forked, 0..18 arbitrary bytes, chunk size symbolic 1..4) from an arbitrary valid chunk-stream state: fresh / idle with symbolic inherited fields / message of 2..6 bytes partially received"},
-			{Pkg: "rtmp", Func: "HarnessC07_Decode", Stall: true, Labels: []string{"c07-decode", "c07-decode-accepted"}, Bound: "DecodeMessage with symbolic type and payload of 0..10 bytes (thorough 0..13), with and without outstanding requests"},
-			{Pkg: "rtmp", Func: "HarnessC07_Packets", Stall: true, Labels: []string{"c07-packets", "c07-packets-accepted"}, Bound: "UnmarshalBinary of each of the 12 packet kinds on 0..10 arbitrary bytes"},
+			{Pkg: "rtmp", Func: "HarnessC07_Decode", Stall: true, Labels: []string{"c07-decode", "c07-decode-accepted"}, Bound: "DecodeMessage with symbolic type and payload of 0..13 bytes (thorough 0..16), with and without outstanding requests"},
+			{Pkg: "rtmp", Func: "HarnessC07_Packets", Stall: true, Labels: []string{"c07-packets", "c07-packets-accepted"}, Bound: "UnmarshalBinary of each of the 12 packet kinds on 0..13 (thorough 0..16) arbitrary bytes"},
 			{Pkg: "flv", Func: "HarnessC07_FlvDemux", Stall: true, Labels: []string{"c07-flv-demux", "c07-flv-tag"}, Bound: "0..16 (thorough 0..24) arbitrary bytes, alone or after a well-formed header; tag sizes > 40 only for 41, 65536, 2^24-1"},
 			{Pkg: "flv", Func: "HarnessC07_FlvTags", Stall: true, Labels: []string{"c07-flv-tags"}, Bound: "audio and video packager Decode (and re-Encode, String()) on every byte string of 0..8 bytes"},
 			{Pkg: "flv", Func: "HarnessC07_FlvEnums", Labels: []string{"c07-flv-enums"}, Bound: "String/ToHz/OpusToHz/From/OpusFrom of every flv enum with the receiver symbolic over uint8"},
@@ -330,7 +330,7 @@ func init() {
 		Harnesses: []harnessSpec{
 			{Pkg: "json", Func: "HarnessC17_Strip", Labels: []string{"strip-comment", "strip-plain"},
 				Bound:  "templates [S] (S up to 3 units), {S: S}, [S,S] (1 unit each), [literal]; 0-1 comment (line with/without final newline at end of input, or block; 0-2 symbolic content bytes) in any slot; reads: whole, 1 byte, one split inside or right after a comment marker",
-				BoundT: "0-2 comments with 0-2 content bytes; one split at every offset"},
+				BoundT: "as quick, with one split at every offset of the document"},
 		},
 	})
 }
